@@ -436,10 +436,10 @@ def _dist_tensors(prefix, dist, out):
         out[f"{tag}/covar"] = dd.covariance_matrix.detach().clone()
 
 
-def _predict(spec, b, out, prefix, with_y=True, Xs=None):
+def _predict(spec, b, out, prefix, with_y=True, Xs=None, grad=False):
     model, lik = b.model, b.lik
     Xs = spec.Xs if Xs is None else Xs
-    with torch.no_grad(), gpytorch.settings.fast_pred_var(False):
+    with torch.set_grad_enabled(grad), gpytorch.settings.fast_pred_var(False):
         torch.manual_seed(SEED)
         if spec.kind == "list":
             pred = model(*Xs)
@@ -520,6 +520,34 @@ def save_state(b):
     return blobs
 
 
+def save_children(b):
+    """the state of every direct child module on its own (a user who stores / transfers the kernel, the mean and the likelihood separately)"""
+    blobs = []
+    for mod in b.modules():
+        own = {k: v for k, v in mod.state_dict().items() if "." not in k}
+        assert not own or isinstance(mod, torch.nn.Module) and not isinstance(mod, gpytorch.models.GP), f"parameters directly on the model: {list(own)}"
+        d = {}
+        for name, child in mod.named_children():
+            buf = io.BytesIO()
+            torch.save(child.state_dict(), buf)
+            d[name] = buf.getvalue()
+        buf = io.BytesIO()
+        torch.save(own, buf)
+        blobs.append((d, buf.getvalue()))
+    return blobs
+
+
+def load_children(b, blobs):
+    for mod, (d, own) in zip(b.modules(), blobs):
+        children = dict(mod.named_children())
+        for name, blob in d.items():
+            sd = torch.load(io.BytesIO(blob))
+            _persist(lambda: children[name].load_state_dict(sd), "load_state_dict")
+        own = torch.load(io.BytesIO(own))
+        if own:  # a likelihood passed on its own has its parameters on itself: load them through the module
+            _persist(lambda: mod.load_state_dict(own, strict=False), "load_state_dict")
+
+
 def _persist(fn, what):
     """run a persistence operation; failures of the operation itself on a valid model are violations of the property"""
     try:
@@ -598,11 +626,11 @@ def train_steps(spec, b, steps):
             o.step()
 
 
-def predict_history(spec, b):
+def predict_history(spec, b, grad=False):
     for mod in b.modules():
         mod.eval()
     tmp = {}
-    _predict(spec, b, tmp, "p", Xs=spec.Xh)
+    _predict(spec, b, tmp, "p", Xs=spec.Xh, grad=grad)
 
 
 def oracle_exact(spec, b):
@@ -676,8 +704,8 @@ def close(ref, got):
 
 
 SEED = 4321  # the same seed before every model call: uninitialised variational parameters are initialised (randomly) by whichever call comes first
-SAVE_POINTS = ("fresh", "trained", "predicted", "last")
-MECHS = ("state_dict_fresh", "state_dict_fresh_alt", "state_dict_used", "state_dict_used_holder", "pickle", "deepcopy")
+SAVE_POINTS = ("fresh", "trained", "predicted", "predicted_with_grad", "last")
+MECHS = ("state_dict_fresh", "state_dict_fresh_alt", "state_dict_used", "state_dict_used_holder", "state_dict_used_children", "pickle", "deepcopy")
 
 
 def run(tier="quick", seed=0, only=None):
@@ -745,6 +773,8 @@ def run(tier="quick", seed=0, only=None):
                         train_steps(spec, orig, 3)
                     elif sp == "predicted":
                         predict_history(spec, orig)
+                    elif sp == "predicted_with_grad":
+                        predict_history(spec, orig, grad=True)
                     elif sp == "last":
                         if spec.kind == "exact":
                             predict_history(spec, orig)
@@ -767,6 +797,7 @@ def run(tier="quick", seed=0, only=None):
                         torch.save(h.state_dict(), buf)
                         return buf.getvalue()
                     _, holder_blob = guarded(f"{spec.name}/{sp}/state_dict_used_holder/save", hsave, inp0)
+                _, child_blobs = guarded(f"{spec.name}/{sp}/state_dict_used_children/save", lambda: save_children(orig), inp0)
                 ref_state = state_of(orig)
                 for mech in MECHS:
                     def make(mech=mech):
@@ -784,7 +815,11 @@ def run(tier="quick", seed=0, only=None):
                             b = spec.build("alt", data)
                         else:
                             b = make_used(spec, data, 1.9)
-                        if mech == "state_dict_used_holder":
+                        if mech == "state_dict_used_children":
+                            if child_blobs is None:
+                                return None
+                            load_children(b, child_blobs)
+                        elif mech == "state_dict_used_holder":
                             if holder_blob is None:
                                 return None
                             h = Holder(b.model, None if len(b.modules()) == 1 else b.lik)
